@@ -21,7 +21,8 @@ Definition regs_ok (b : bytes) (c : nat) (L : nat -> Prop) (regs : list hvec)
 
 Definition tsig_wf (t : tsigr) : Prop :=
   wf_name (t_key t) /\ wf_name (t_alg t) /\ length (t_time t) = 6 /\ length (t_server_time t) = 6 /\
-  t_reserved t = tsig_unsigned_len (t_key t) (t_alg t) (t_error t).
+  t_reserved t = tsig_unsigned_len (t_key t) (t_alg t) (t_error t) /\
+  Forall wf_bytes (t_alg t) /\ wf_bytes (t_time t) /\ wf_bytes (t_server_time t).
 
 Record AInv (d : dstate) (g : gn) (L : nat -> Prop) : Prop := mkAInv {
   a_n : Inv_n (d_w d);
@@ -133,11 +134,14 @@ Qed.
 
 Lemma hdr_write_ok d g L pos data : AInv d g L -> pos + length data <= header_size ->
   exists w', w_write (d_w d) pos data = Ok w' /\ AInv (mkD w' (d_regs d)) g L /\
-             w_edns w' = w_edns (d_w d) /\ w_tsig w' = w_tsig (d_w d).
+             w_edns w' = w_edns (d_w d) /\ w_tsig w' = w_tsig (d_w d) /\ w_cursor w' = w_cursor (d_w d) /\
+             forall c h, ragree header_size c h (w_buf (d_w d)) (w_buf w').
 Proof.
   intros Hi Hp. pose proof (a_n _ _ _ Hi) as Hn.
   destruct (buf_write_some (w_buf (d_w d)) pos data) as [b' Hb]; [destruct Hn; lia|].
-  unfold w_write. rewrite Hb. eexists. split; [reflexivity|]. split; [|split; reflexivity].
+  unfold w_write. rewrite Hb. eexists. split; [reflexivity|].
+  split; [|split; [reflexivity|split; [reflexivity|split; [reflexivity|]]]].
+  2:{ intros c h. simpl. eapply buf_write_ragree; eauto. }
   apply AInv_move; auto.
   - apply inv_set_buf; auto. eapply buf_write_length; eauto.
   - simpl. eapply buf_write_ragree; eauto.
@@ -146,7 +150,8 @@ Qed.
 
 Lemma hdr_modify_ok d g L i f : AInv d g L -> N.to_nat i < header_size ->
   exists w', w_modify (d_w d) i f = Ok w' /\ AInv (mkD w' (d_regs d)) g L /\
-             w_edns w' = w_edns (d_w d) /\ w_tsig w' = w_tsig (d_w d).
+             w_edns w' = w_edns (d_w d) /\ w_tsig w' = w_tsig (d_w d) /\ w_cursor w' = w_cursor (d_w d) /\
+             forall c h, ragree header_size c h (w_buf (d_w d)) (w_buf w').
 Proof.
   intros Hi Hp. pose proof (a_n _ _ _ Hi) as Hn. unfold w_modify.
   destruct (nth_error (w_buf (d_w d)) (N.to_nat i)) as [x|] eqn:E.
@@ -188,8 +193,10 @@ Definition op_wf (o : wop) : Prop :=
   | OAddQuestion n _ _ => wf_name n
   | OAddRr _ _ n _ _ _ rd _ => wf_name n /\ wf_bytes rd
   | OAddRrset _ _ n _ _ _ rds _ => wf_name n /\ Forall wf_bytes rds
-  | OSetTsig alg key time _ _ _ stime => wf_name alg /\ wf_name key /\ length time = 6 /\ length stime = 6
-  | OUpdateTime t => length t = 6
+  | OSetTsig alg key time _ _ _ stime =>
+    wf_name alg /\ wf_name key /\ length time = 6 /\ length stime = 6 /\
+    Forall wf_bytes alg /\ wf_bytes time /\ wf_bytes stime
+  | OUpdateTime t => length t = 6 /\ wf_bytes t
   | _ => True
   end.
 
@@ -566,6 +573,13 @@ Qed.
 Lemma AInv_eta d g L : AInv d g L -> AInv (mkD (d_w d) (d_regs d)) g L.
 Proof. destruct d; auto. Qed.
 
+Lemma wf_bytes_lower n : Forall wf_bytes n -> Forall wf_bytes (nm_lower n).
+Proof.
+  intros H. unfold nm_lower. rewrite Forall_forall in *. intros x Hx. apply in_map_iff in Hx as [y [<- Hy]].
+  specialize (H y Hy). unfold wf_bytes in *. rewrite Forall_forall in *. intros z Hz.
+  apply in_map_iff in Hz as [u [<- Hu]]. apply lower_octet. auto.
+Qed.
+
 Theorem step_ok_all d g L o : AInv d g L -> op_wf o -> op_contract d g o -> step_ok d g o.
 Proof.
   intros Hi Hwf Hc. pose proof (a_n _ _ _ Hi) as Hn.
@@ -628,7 +642,7 @@ Proof.
       destruct (w_avail (d_w d) <? w_cursor (d_w d) + opt_record_size); [discriminate|].
       destruct (checked_add16 (w_ar (d_w d)) 1); discriminate.
   - (* set_tsig *)
-    destruct Hwf as [Wa [Wk [Wt Ws]]].
+    destruct Hwf as [Wa [Wk [Wt [Ws [Oa [Ot Os]]]]]].
     pose proof (step_good_all d (OSetTsig alg key time fudge origid error stime) Hn) as G. cbn [step] in G.
     destruct (set_tsig (nm_lower alg) (nm_lower key) time fudge origid error stime (d_w d)) as [[[] w']|[e w']|] eqn:E;
       simpl in G |- *.
@@ -636,7 +650,8 @@ Proof.
       destruct (w_avail (d_w d) <? _); [discriminate|].
       destruct (checked_add16 (w_ar (d_w d)) 1); [|discriminate]. inversion E; subst w'.
       apply (AInv_fields d g L); auto. simpl. intros t Et. inversion Et; subst t.
-      unfold tsig_wf; simpl. repeat split; auto using wf_name_lower; apply wf_name_lower; auto.
+      unfold tsig_wf; simpl. split; [apply wf_name_lower; auto|]. split; [apply wf_name_lower; auto|].
+      split; auto. split; auto. split; auto. split; [apply wf_bytes_lower; auto|]. split; auto.
     + exists L. apply AInv_obs; auto.
     + unfold set_tsig in E. destruct (w_tsig (d_w d)); [discriminate|].
       destruct (w_avail (d_w d) <? _); [discriminate|].
@@ -645,8 +660,8 @@ Proof.
     unfold update_time_signed. destruct (w_tsig (d_w d)) as [t|] eqn:Et; simpl; [|exists L; apply AInv_eta; auto].
     exists L. apply (AInv_fields d g L); auto.
     + destruct Hn. constructor; simpl; auto. unfold resv in *. simpl. rewrite Et in i_av. exact i_av.
-    + simpl. intros t' E'. inversion E'; subst t'. destruct (a_ts _ _ _ Hi t Et) as [T1 [T2 [T3 [T4 T5]]]].
-      unfold tsig_wf; simpl. auto.
+    + simpl. intros t' E'. inversion E'; subst t'. destruct (a_ts _ _ _ Hi t Et) as [T1 [T2 [T3 [T4 [T5 [T6 [T7 T8]]]]]]].
+      destruct Hwf as [W1 W2]. unfold tsig_wf; simpl. auto 10.
   - (* clear_rrs *) eexists. apply AInv_clear. exact Hi.
   - (* template *)
     destruct (retemplate_ok newbuf (d_w d) Hn) as [[lim [av E]]|E]; rewrite E; simpl; [|eauto].
@@ -661,4 +676,250 @@ Proof.
     + apply (a_ts _ _ _ Hi).
   - (* template subsequent *) eauto.
   - (* get *) destruct (getters_ok (d_w d) Hn) as [l ->]. simpl. eauto.
+Qed.
+
+(* ---------------------------------------------------------------- finish *)
+
+Lemma NInv_set_avail w h L a : NInv w h L -> w_cursor w <= a -> a <= length (w_buf w) ->
+  NInv (set_avail w a) h L.
+Proof. intros [[N1 N2] ? ? ? ? ? ?] H1 H2. constructor; auto. split; simpl; auto. Qed.
+
+Lemma NInv_clear_tsig w h L : NInv w h L -> NInv (set_tsig_f w None) h L.
+Proof. intros []. constructor; auto. Qed.
+
+(* a record without name components in its RDATA that fits is written *)
+Lemma add_rr_fits h owner ty cl ttl rd v w L names gq go gr :
+  NInv w (length (w_buf w)) L -> anch3 w L gq go gr -> vec_ok (w_buf w) (w_cursor w) L v names ->
+  wf_name owner -> wf_bytes rd -> hint_contract h owner w -> hint_in h w L ->
+  component_types cl ty = [] -> w_cursor w + length (nm_wire owner) + 10 + length rd <= w_avail w ->
+  exists v' w', add_rr h owner ty cl ttl rd v w = Ok (v', w') /\
+    exists L', grew w w' L L' /\ NInv w' (length (w_buf w')) L' /\ anch3 w' L' gq (Some owner) gr /\
+               w_cursor w' <= w_cursor w + length (nm_wire owner) + 10 + length rd /\
+               ext (w_cursor w) w w'.
+Proof.
+  intros Hi A V Hwf Hrd Hh HhL Hct Hfit.
+  pose proof (add_rr_L h owner ty cl ttl rd v w L names gq go gr Hi A V Hwf Hrd Hh HhL) as P.
+  assert (Hpre : pre (w_cursor w) w) by (split; [lia|apply Hi]).
+  pose proof (frame_add_rr (w_cursor w) h owner ty cl ttl rd v w Hpre) as F.
+  rewrite Hct in P.
+  destruct (add_rr h owner ty cl ttl rd v w) as [[v' w']|[e w']|]; simpl in P, F.
+  - exists v', w'. split; auto. destruct P as [L' [G' [Hi' [A' [_ [_ [Hc' _]]]]]]].
+    exists L'. simpl in A'. auto 10.
+  - destruct P as [[_ K]|[_ K]]; [lia|congruence].
+  - contradiction.
+Qed.
+
+Lemma tsig_rdata_length t : tsig_wf t ->
+  length (nm_wire (t_key t)) + 10 + length (tsig_unsigned_rdata t) = t_reserved t.
+Proof.
+  intros [_ [_ [T3 [T4 [T5 _]]]]]. rewrite T5. unfold tsig_unsigned_rdata, tsig_unsigned_len.
+  rewrite !app_length. unfold be16. simpl length. rewrite T3.
+  destruct (t_error t =? badtime)%N; simpl length; lia.
+Qed.
+
+Lemma wf_bytes_be16 v : wf_bytes (be16 v).
+Proof.
+  unfold be16, wf_bytes. repeat constructor; unfold is_octet; apply N.mod_lt; lia.
+Qed.
+
+Lemma wf_bytes_app (a c : bytes) : wf_bytes a -> wf_bytes c -> wf_bytes (a ++ c).
+Proof. unfold wf_bytes. intros. apply Forall_app. auto. Qed.
+
+Lemma wf_bytes_lwire n : wf_name n -> Forall wf_bytes n -> wf_bytes (nm_lwire n).
+Proof.
+  intros [H _] O. induction n as [|l r IH]; [constructor|].
+  inversion H as [|? ? [_ L63] H']; subst. inversion O; subst.
+  rewrite nm_lwire_cons. constructor; [unfold is_octet; lia|]. apply wf_bytes_app; auto.
+Qed.
+
+Lemma octets_rdata t : tsig_wf t -> wf_bytes (tsig_unsigned_rdata t).
+Proof.
+  intros [_ [T2 [_ [_ [_ [T6 [T7 T8]]]]]]]. unfold tsig_unsigned_rdata.
+  assert (W : wf_bytes (nm_wire (t_alg t))).
+  { unfold nm_wire. apply wf_bytes_app; [apply wf_bytes_lwire; auto|]. constructor; [unfold is_octet; lia|constructor]. }
+  assert (O : wf_bytes (if (t_error t =? badtime)%N then t_server_time t else []))
+    by (destruct (t_error t =? badtime)%N; [auto|constructor]).
+  apply wf_bytes_app; [exact W|]. apply wf_bytes_app; [exact T7|].
+  apply wf_bytes_app; [apply wf_bytes_be16|]. apply wf_bytes_app; [apply wf_bytes_be16|].
+  apply wf_bytes_app; [apply wf_bytes_be16|]. apply wf_bytes_app; [apply wf_bytes_be16|].
+  apply wf_bytes_app; [apply wf_bytes_be16|exact O].
+Qed.
+
+Lemma ragree_trans lo c h b1 b2 b3 : ragree lo c h b1 b2 -> ragree lo c h b2 b3 -> ragree lo c h b1 b3.
+Proof. intros H1 H2 j J1 J2 J3. rewrite H2, H1; auto. Qed.
+
+Theorem finish_ok f d g L : AInv d g L ->
+  exists wF LF, finish_gen f (d_w d) = Ok (w_cursor wF, w_buf wF) /\
+    NInv wF (length (w_buf wF)) LF /\ (forall s, L s -> LF s) /\
+    (forall s, LF s -> L s \/ w_cursor (d_w d) <= s) /\
+    ragree header_size (w_cursor (d_w d)) (length (w_buf (d_w d))) (w_buf (d_w d)) (w_buf wF) /\
+    w_cursor (d_w d) <= w_cursor wF.
+Proof.
+  intros Hi. unfold finish_gen.
+  set (c0 := w_cursor (d_w d)). set (h0 := length (w_buf (d_w d))).
+  destruct (hdr_write_ok d g L (N.to_nat QDCOUNT_START) (be16 (w_qd (d_w d))) Hi ltac:(cbv; lia))
+    as [w1 [E1 [H1 [He1 [Ht1 [Hc1 R1]]]]]].
+  rewrite E1. cbn [bind].
+  destruct (hdr_write_ok _ g L (N.to_nat ANCOUNT_START) (be16 (w_an w1)) H1 ltac:(cbv; lia))
+    as [w2 [E2 [H2 [He2 [Ht2 [Hc2 R2]]]]]].
+  cbn [d_w d_regs] in E2, He2, Ht2, Hc2, R2. rewrite E2. cbn [bind].
+  destruct (hdr_write_ok _ g L (N.to_nat NSCOUNT_START) (be16 (w_ns w2)) H2 ltac:(cbv; lia))
+    as [w3 [E3 [H3 [He3 [Ht3 [Hc3 R3]]]]]].
+  cbn [d_w d_regs] in E3, He3, Ht3, Hc3, R3. rewrite E3. cbn [bind].
+  destruct (hdr_write_ok _ g L (N.to_nat ARCOUNT_START) (be16 (w_ar w3)) H3 ltac:(cbv; lia))
+    as [w4 [E4 [H4 [He4 [Ht4 [Hc4 R4]]]]]].
+  cbn [d_w d_regs] in E4, He4, Ht4, Hc4, R4. rewrite E4. cbn [bind].
+  assert (Hc : w_cursor w4 = c0) by (unfold c0; congruence).
+  assert (R : ragree header_size c0 h0 (w_buf (d_w d)) (w_buf w4)).
+  { eapply ragree_trans; [apply R1|]. eapply ragree_trans; [apply R2|].
+    eapply ragree_trans; [apply R3|apply R4]. }
+  assert (Hts : forall t, w_tsig w4 = Some t -> tsig_wf t).
+  { intros t E. apply (a_ts _ _ _ H4); exact E. }
+  cbn [d_w d_regs] in H4.
+  clear E1 E2 E3 E4 H1 H2 H3 He1 He2 He3 He4 Ht1 Ht2 Ht3 Ht4 Hc1 Hc2 Hc3 Hc4 R1 R2 R3 R4 w1 w2 w3.
+  pose proof (a_n _ _ _ H4) as Hn4. pose proof (a_ni _ _ _ H4) as Hi4.
+  pose proof (a_an _ _ _ H4) as A4. cbn [d_w d_regs] in Hn4, Hi4, A4.
+  (* OPT *)
+  assert (Hopt : exists w5 L5,
+    match w_edns w4 with
+    | Some e => unwrap_w (add_rr HNone [] TYPE_OPT (e_udp e) (f (e_upper e * 16777216)%N) [] None
+                                 (set_avail w4 (w_avail w4 + opt_record_size)))
+    | None => Ok w4 end = Ok w5 /\
+    NInv w5 (length (w_buf w5)) L5 /\ (forall s, L s -> L5 s) /\ (forall s, L5 s -> L s \/ c0 <= s) /\
+    (exists go, anch3 w5 L5 (g_q g) go (g_r g)) /\
+    agree c0 (w_buf w4) (w_buf w5) /\ c0 <= w_cursor w5 /\ w_tsig w5 = w_tsig w4 /\
+    w_avail w5 + match w_tsig w5 with Some t => t_reserved t | None => 0 end <= length (w_buf w5)).
+  { destruct Hn4 as [h1 h2 h3 h4 h5]. unfold resv in h4.
+    destruct (w_edns w4) as [e|] eqn:Ee.
+    - set (w4' := set_avail w4 (w_avail w4 + opt_record_size)).
+      assert (Hi4' : NInv w4' (length (w_buf w4')) L).
+      { unfold w4'. apply NInv_set_avail; auto; simpl; destruct (w_tsig w4); lia. }
+      destruct (add_rr_fits HNone [] TYPE_OPT (e_udp e) (f (e_upper e * 16777216)%N) [] None w4' L []
+                  (g_q g) (g_o g) (g_r g) Hi4' A4 I) as [v' [w5 [E5 [L5 [G5 [Hi5 [A5 [Hc5 X5]]]]]]]].
+      + split; [constructor|simpl; lia].
+      + constructor.
+      + exact I.
+      + exact I.
+      + reflexivity.
+      + unfold w4'. simpl. unfold opt_record_size. simpl. lia.
+      + rewrite E5. simpl. exists w5, L5. split; auto. split; auto.
+        split; [apply G5|].
+        split; [intros s Hs; destruct (proj2 G5 s Hs); auto; right; unfold w4' in *; simpl in *; lia|].
+        split; [eauto|]. pose proof (x_agree _ _ _ X5) as Ag. pose proof (x_cur _ _ _ X5) as Cu.
+        unfold w4' in Ag, Cu. simpl in Ag, Cu. rewrite Hc in Ag, Cu.
+        split; [exact Ag|]. split; [exact Cu|]. split; [apply X5|].
+        rewrite (x_tsig _ _ _ X5), (x_av _ _ _ X5), (x_len _ _ _ X5). unfold w4'. simpl.
+        unfold opt_record_size in *. simpl in *. destruct (w_tsig w4); lia.
+    - exists w4, L. split; auto. split; auto. split; auto. split; auto. split; [eauto|].
+      split; [apply agree_refl|]. split; [lia|]. split; auto.
+      destruct (w_tsig w4); lia. }
+  destruct Hopt as [w5 [L5 [E5 [Hi5 [M5 [M5' [[go5 A5] [Ag5 [Hc5 [Ht5 Hl5]]]]]]]]]].
+  rewrite E5. cbn [bind].
+  assert (R5 : ragree header_size c0 h0 (w_buf (d_w d)) (w_buf w5)).
+  { eapply ragree_trans; [exact R|]. apply agree_ragree. exact Ag5. }
+  destruct (w_tsig w5) as [t|] eqn:Et5.
+  - pose proof (Hts t ltac:(congruence)) as Twf. pose proof (octets_rdata t Twf) as Toct.
+    pose proof (tsig_rdata_length t Twf) as Tlen.
+    set (w5' := set_avail (set_tsig_f w5 None) (w_avail w5 + t_reserved t)).
+    pose proof (ni_nb _ _ _ Hi5) as [K1 K2].
+    assert (Hi5' : NInv w5' (length (w_buf w5')) L5).
+    { unfold w5'. apply NInv_set_avail; [apply NInv_clear_tsig; exact Hi5|simpl; lia|simpl; lia]. }
+    destruct (add_rr_fits HNone (t_key t) TYPE_TSIG qclass_any (ttl_from 0) (tsig_unsigned_rdata t) None w5' L5 []
+                (g_q g) go5 (g_r g) Hi5' A5 I) as [v' [w6 [E6 [L6 [G6 [Hi6 [A6 [Hc6 X6]]]]]]]].
+    + apply Twf.
+    + exact Toct.
+    + exact I.
+    + exact I.
+    + reflexivity.
+    + unfold w5'. simpl. lia.
+    + rewrite E6. simpl. exists w6, L6. split; auto. split; auto.
+      split; [intros s Hs; apply G6; auto|].
+      pose proof (x_agree _ _ _ X6) as Ag6. pose proof (x_cur _ _ _ X6) as Cu6.
+      unfold w5' in Ag6, Cu6. simpl in Ag6, Cu6.
+      split.
+      { intros s Hs. destruct (proj2 G6 s Hs) as [K|K].
+        - destruct (M5' s K); auto.
+        - right. unfold w5' in K. simpl in K. lia. }
+      split; [|lia].
+      eapply ragree_trans; [exact R5|]. apply agree_ragree. eapply agree_le; eauto.
+  - exists w5, L5. split; auto.
+Qed.
+
+(* ---------------------------------------------------------------- whole runs *)
+
+(* the hint contract of a whole operation sequence, threaded through the run *)
+Fixpoint run_contract (d : dstate) (g : gn) (ops : list wop) : Prop :=
+  match ops with
+  | [] => True
+  | o :: rest =>
+    op_wf o /\ op_contract d g o /\
+    match step d o with
+    | Ok (d1, r) => if stops o r then True else run_contract d1 (gstep d g o r) rest
+    | _ => True
+    end
+  end.
+
+Definition g0 : gn := mkGn None None None [].
+Definition L0 : nat -> Prop := fun _ => False.
+
+Lemma AInv_new buf limit w0 : writer_new buf limit = Ok w0 -> AInv (mkD w0 []) g0 L0.
+Proof.
+  intros H. pose proof (writer_new_inv _ _ _ H) as Hn.
+  unfold writer_new in H.
+  destruct (Nat.min limit (length buf) <? header_size); [discriminate|].
+  destruct (length buf <? header_size); [discriminate|].
+  inversion H; subst w0. clear H.
+  constructor; simpl.
+  - exact Hn.
+  - constructor; simpl.
+    + apply (inv_nb _ Hn).
+    + lia.
+    + left. lia.
+    + intros s [].
+    + intros s [].
+    + repeat split; exact I.
+    + intros pr [E|[E|E]]; discriminate.
+  - repeat split; intros pr E; discriminate.
+  - intros s [[] _].
+  - intros s [[] _].
+  - intros pr E; discriminate.
+  - split; [reflexivity|]. intros r v names i p m E. destruct r; discriminate.
+  - intros t E. discriminate.
+Qed.
+
+Theorem run_ok : forall ops d g L, AInv d g L -> run_contract d g ops ->
+  exists d' outs alive g' L', run d ops = Ok (d', outs, alive) /\ AInv d' g' L'.
+Proof.
+  induction ops as [|o rest IH]; intros d g L Hi Hc.
+  - simpl. exists d, [], true, g, L. auto.
+  - destruct Hc as [Hwf [Hoc Hrest]]. pose proof (step_ok_all d g L o Hi Hwf Hoc) as S.
+    unfold step_ok in S. cbn [run].
+    destruct (step d o) as [[d1 r]|e|] eqn:E; try contradiction. cbn [bind].
+    destruct S as [L1 H1].
+    destruct (stops o r).
+    + exists d1, [r], false, (gstep d g o r), L1. auto.
+    + destruct (IH d1 (gstep d g o r) L1 H1 Hrest) as [d2 [outs [alive [g2 [L2 [E2 H2]]]]]].
+      rewrite E2. cbn [bind]. exists d2, (r :: outs), alive, g2, L2. auto.
+Qed.
+
+(* No operation sequence obeying the hint contract makes the writer panic, finish included;
+   in the finished message every label start of the ghost set decodes without looking at the
+   header or beyond the end, every pointer met leads strictly backwards to another member. *)
+Theorem run_writer_ok buf limit w0 ops : writer_new buf limit = Ok w0 ->
+  run_contract (mkD w0 []) g0 ops ->
+  exists rr, run_writer buf limit ops = Ok rr /\
+    match rr_final rr with
+    | Some (len, b) =>
+      exists LF, closed b header_size len (length b) LF /\ decodable b len LF /\ len <= length b
+    | None => True
+    end.
+Proof.
+  intros H0 Hc. unfold run_writer, run_writer_gen. rewrite H0. cbn [bind].
+  destruct (run_ok ops _ _ _ (AInv_new _ _ _ H0) Hc) as [d [outs [alive [g [L [E Hi]]]]]].
+  rewrite E. cbn [bind]. destruct alive.
+  - destruct (finish_ok (fun x => x) d g L Hi) as [wF [LF [EF [HiF _]]]].
+    unfold finish. rewrite EF. cbn [bind]. eexists. split; [reflexivity|]. simpl.
+    exists LF. split; [apply HiF|]. split; [apply HiF|].
+    destruct (ni_nb _ _ _ HiF). lia.
+  - eexists. split; [reflexivity|]. exact I.
 Qed.
